@@ -24,8 +24,10 @@ import lib
 ROOT = lib.ROOT
 COQ = lib.COQ
 BUILD = ROOT / "build"
-REPLAYS = ROOT / "replays"
-EVID = ROOT / "evidence"
+# evidence/ and replays/ describe /repo only; a run against another tree (VERIF_REPO) keeps its files under build/
+_ALT = str(lib.REPO) != "/repo"
+REPLAYS = (ROOT / "build" / "alt-replays") if _ALT else (ROOT / "replays")
+EVID = (ROOT / "build" / "alt-evidence") if _ALT else (ROOT / "evidence")
 FORBID = re.compile(r"\b(Admitted|admit|Axiom|Axioms|Parameter|Parameters|Conjecture|Hypothesis|Variable)\b|Unset\s+Guard|bypass_check|Unset\s+Positivity|Unset\s+Universe|type-in-type|Admit\s+Obligations")
 TRUSTED = [
     "Coq 8.16.1 kernel incl. vm_compute (no native_compute)",
@@ -163,7 +165,7 @@ def load_findings():
 
 
 def write_replay(pid, name, payload):
-    REPLAYS.mkdir(exist_ok=True)
+    REPLAYS.mkdir(parents=True, exist_ok=True)
     path = REPLAYS / f"{pid}_{name}.json"
     path.write_text(json.dumps(payload, indent=1, sort_keys=True))
     return path
@@ -238,6 +240,7 @@ def do_check(P, pid, tier, seed, t0, workdir):
     violations = []     # (replay_path, suffix)
     known_lines = []
     findings = {f["id"]: f for f in load_findings() if f.get("property") == pid}
+    REPLAYS.mkdir(parents=True, exist_ok=True)
     for old in REPLAYS.glob(f"{pid}_*.json"):      # replays of earlier runs of this property are stale
         old.unlink()
 
@@ -273,6 +276,20 @@ def do_check(P, pid, tier, seed, t0, workdir):
         text = (COQ / "theories" / "Properties" / f"{pid}.v").read_text() if (COQ / "theories" / "Properties" / f"{pid}.v").exists() else ""
         for n in re.findall(r"^Print Assumptions\s+([A-Za-z0-9_']+)\s*\.", text, flags=re.M):
             obligations.append({"kind": "theorem", "name": n, "ok": False, "status": "unchecked"})
+    # thorough tier: independent re-check of the compiled property file and everything it depends on
+    coqchk_report = None
+    if tier == "thorough" and rc == 0:
+        pc = subprocess.run(["timeout", "1500", "coqchk", "-silent", "-o", "-Q", str(COQ / "theories"), "CG", f"CG.Properties.{pid}"],
+                            capture_output=True, text=True, cwd=str(COQ))
+        txt = pc.stdout + pc.stderr
+        m = re.search(r"\* Axioms:(.*?)\n\s*\n\* Constants/Inductives relying on type-in-type:(.*?)\n\s*\n\* Constants/Inductives relying on unsafe \(co\)fixpoints:(.*?)\n\s*\n\* Inductives whose positivity is assumed:(.*?)\n", txt + "\n", flags=re.S)
+        fields = [" ".join(x.split()) for x in m.groups()] if m else None
+        okc = pc.returncode == 0 and fields is not None and all(f == "<none>" or (i == 0 and all(a.split(".")[-1] in getattr(P, "ALLOWED_AXIOMS", []) for a in f.split())) for i, f in enumerate(fields))
+        coqchk_report = {"rc": pc.returncode, "axioms": fields[0] if fields else None, "type_in_type": fields[1] if fields else None,
+                         "unsafe_fixpoints": fields[2] if fields else None, "assumed_positivity": fields[3] if fields else None}
+        obligations.append({"kind": "coqchk", "name": f"coqchk -o CG.Properties.{pid}", "ok": okc, "detail": coqchk_report})
+        if not okc:
+            proof_fail.append(f"coqchk did not accept Properties/{pid}.vo cleanly: {txt[-300:]}")
     bad = forbid_scan()
     obligations.append({"kind": "forbid-scan", "name": "no Admitted/admit/Axiom/Parameter/unset checks in coq/theories", "ok": not bad})
     if bad:
@@ -413,7 +430,7 @@ def do_check(P, pid, tier, seed, t0, workdir):
         "wall_s": round(time.time() - t0, 1),
         "violations": len(violations),
     }
-    EVID.mkdir(exist_ok=True)
+    EVID.mkdir(parents=True, exist_ok=True)
     (EVID / f"{pid}.json").write_text(json.dumps(ev, indent=1))
     for l in known_lines:
         print(l)
